@@ -711,6 +711,54 @@ def c17(ctx):
         rec["doc"] = 1
 
     ctx.negctl_replay(["longform-replay"], summ["_first_edge"], wrong)
+
+    # the other direction: random probes with any number of deviations, resolved by the real handler / VDR and judged
+    # by TLC (LongFormTrace.tla)
+    rnd = random.Random(ctx.seed)
+    nss = ["same", "extended", "truncated", "other_method", "method_prefix_only", "upper_case", "no_did_scheme"]
+    encs = ["canonical", "whitespace", "member_order", "padded", "trailing_bits", "tampered_char", "not_base64url", "other_request",
+            "update_request", "empty", "typeless"]
+    sfxs = ["matching", "other", "empty", "prefixed", "suffixed", "doubled"]
+    n = 400 if ctx.tier == "quick" else 6000
+    probes = []
+    for _ in range(n):
+        # (half of the probes stay close to a resolvable DID)
+        w = [6, 1, 1, 1, 1, 1, 1] if rnd.random() < 0.5 else [1] * 7
+        pr = {"doc": rnd.randint(1, 5), "ns": rnd.choices(nss, weights=w)[0],
+              "enc": rnd.choices(encs, weights=[6 if rnd.random() < 0.5 else 1] + [1] * 10)[0],
+              "sfx": rnd.choices(sfxs, weights=[6 if rnd.random() < 0.5 else 1] + [1] * 5)[0],
+              "form": rnd.choices(["long", "short"], weights=[5, 1])[0]}
+        probes.append(json.dumps({"kind": "resolve", "doc": pr["doc"], "keys": 1, "call": 0, "resolves": False, "probe": pr}))
+    probes = sorted(set(probes))        # (the replay takes every distinct case once)
+    rnd.shuffle(probes)
+    n = len(probes)
+    path = os.path.join(ctx.work, "longform_trace.ndjson")
+    ctx.harness(["longform-replay", "-log", path], stdin_text="\n".join(probes) + "\n")
+    lines = open(path).read().splitlines()
+    if len(lines) != n:
+        raise Infra("long-form trace: %d probes logged, %d sent" % (len(lines), n))
+    bad = ctx.tlc_trace("LongFormTrace.tla", "LongFormTrace.cfg", path, "longform_trace.ndjson", histories=n,
+                        label="trace validation: %d random resolution probes, any number of deviations" % n)
+    if bad is not None:
+        ev = json.loads(lines[min(bad, len(lines)) - 1])
+        ctx.add_violation({"kind": "trace-rejected", "key": "trace:resolve:%s" % json.dumps(ev.get("probe"), sort_keys=True),
+                           "detail": "TLC rejects the resolution outcome observed on the real code at trace line %d" % bad,
+                           "case": ev, "replay": {"kind": "trace", "line": bad}})
+    else:
+        # negative control: one flipped outcome must be rejected at its line
+        i = rnd.randrange(len(lines))
+        ev = json.loads(lines[i])
+        ev["resolved"] = not ev["resolved"]
+        ev["id_ok"] = True
+        open(path, "w").write("\n".join(lines[:i] + [json.dumps(ev)] + lines[i + 1:]) + "\n")
+        got = ctx.tlc_trace("LongFormTrace.tla", "LongFormTrace.cfg", path, "longform_trace.ndjson", count=False,
+                            label="negative control: flipped outcome at trace line %d" % (i + 1))
+        decided = not (ev["probe"]["enc"] == "typeless" and ev["probe"]["ns"] == "same" and ev["probe"]["sfx"] == "matching"
+                       and ev["probe"]["form"] == "long")
+        ctx.cov["negative_controls"].append({"kind": "a flipped resolution outcome makes TLC reject the trace at that line",
+                                             "line": i + 1, "rejected_at": got, "detected": (got == i + 1) or not decided})
+        if decided and got != i + 1:
+            raise Infra("negative control not detected: flipped outcome at line %d, TLC says %s" % (i + 1, got))
     ctx.exhaustive = False
 
 
